@@ -51,7 +51,13 @@ def gen_perms(rng, tier, seed):
                 descs.append({'uuid': '%04X' % (0xF800 + n), 'perms': rng.randrange(256), 'value': _canary(n, rng.choice([8, 12, 30]))})
             # some characteristics of a service share their UUID (a Read By Type over the range then meets several of them)
             cu = chars[-1]['uuid'] if chars and rng.random() < 0.3 else '%04X' % (0xF400 + n)
-            chars.append({'uuid': cu, 'props': 0x0A, 'perms': rng.randrange(256), 'value': _canary(n + 500, rng.choice([8, 10, 20, 30, 100, 300])),
+            props = 0x0A
+            if rng.random() < 0.25:
+                # the application declares the Client Characteristic Configuration descriptor itself, with requirements of its own
+                n += 1
+                props = 0x1A
+                descs.append({'uuid': '2902', 'perms': rng.randrange(256), 'value': _canary(n, 8)})
+            chars.append({'uuid': cu, 'props': props, 'perms': rng.randrange(256), 'value': _canary(n + 500, rng.choice([8, 10, 20, 30, 100, 300])),
                           'kind': rng.choice(['static', 'static', 'sync_cb', 'async_cb']), 'delay': rng.choice([0.0, 0.001]), 'descs': descs})
         db['services'].append({'uuid': '%04X' % (0xF300 + si), 'primary': True, 'includes': [], 'chars': chars})
     phases = ['plain']
@@ -368,7 +374,11 @@ def _refusal(sim, op, rsp, opcode, why, link, t, verdicts):
         if op.startswith('write'):
             sim.violation_once(f'accepted:{op}:{why[0]}', f'write-acknowledged-but-not-permitted:{op}:{why[0]}',
                                f'Write Response sent for a {t["kind"]} with permissions {t["perms"]:#04x} ({", ".join(why)})')
-        # a granted read is reported by the leak check (the value carries the canary)
+        elif op == 'read' and t['token'] and t['token'] not in r:
+            # a granted read is reported by the leak check (the value carries the canary); this is a refused read answered with
+            # a Read Response that does NOT carry the attribute's value: something else is being served under that handle
+            sim.violation_once(f'answered:{op}:{why[0]}', f'read-answered-but-not-permitted:{op}:{why[0]}',
+                               f'{op} on a {t["kind"]} with permissions {t["perms"]:#04x} ({", ".join(why)}) got response {r[:8].hex()}.. without the stored value')
 
 
 SCENARIOS = {'perms': (gen_perms, run_perms)}
